@@ -7,7 +7,7 @@ Which handler runs for a given failure is not decided.
 """
 from ..facts import callee, op_place, strip_generics
 from ..flow import Defs, backward_slice, slice_calls
-from .chains_common import chain_snapshots, scope_lookup_shape, A
+from .chains_common import chain_snapshots, chain_always_pushed, scope_lookup_shape, A
 from .compiler_common import PX
 
 LEVEL = 'other'
@@ -125,6 +125,7 @@ def r4_observer_snapshots(ctx):
     ctx.rule('C06.R4', 'P7: the observer chain handed to a nested blueprint is a clone taken in the arm that visits the nested blueprint (observers '
              'registered later in the parent do not run for routes of the nested blueprint).')
     chain_snapshots(ctx, 'C06.R4', 'current_observer_chain', 'observer chain')
+    chain_always_pushed(ctx, 'C06.R4', ['process_error_observer'], 'observer chain')
 
 
 def check(ctx):
